@@ -414,8 +414,7 @@ fn starts_first(starts: &[ThreadStart]) -> &Box<Arena> {
 
 /// Signature of an MT violation: property | class | bracketed tag of the detail.
 pub fn mt_signature(v: &Violation) -> String {
-    let tag = v.detail.strip_prefix('[').and_then(|r| r.split(']').next()).unwrap_or("");
-    format!("{}|{}|{}", v.prop, v.class, tag)
+    v.signature()
 }
 
 /// Turns the recorded execution into an explicit spec (schedule + spurious decisions fixed).
